@@ -252,7 +252,7 @@ def run(argv):
                 elif arg == "-gs":
                     grid_style = arg_next
                 elif arg == "-gc":
-                    grid_color = arg_next
+                    grid_color = verif.util.parse_colors(arg_next)[0]
                 elif arg == "-gw":
                     grid_width = arg_next
                 elif arg == "-ma":
